@@ -158,6 +158,8 @@ def sym_int(x):
         return core.lower(core.zint(x))
     if isinstance(x, SymTensor):
         return sym_int(x.item())
+    if isinstance(x, np.ndarray) and x.dtype == object and x.size == 1:
+        return sym_int(x.reshape(-1)[0])
     from fractions import Fraction
     if isinstance(x, Fraction):
         import math
